@@ -32,7 +32,10 @@ RULE = ('cases from one PRNG: (a) "path": request.propagate on a designed networ
         'value, per-frequency table or value+slope), fused splices, connector and padding losses, in/out VOAs, tilt, every stock amplifier variety incl. dual-stage and OpenROADM, Raman fibres; '
         'gn_model_analytic, ggn_spectrally_separated in thorough) with a uniform grid or a mixed-rate carrier list of '
         '1-40 (96) channels; (a2) multiband ROADM chains (5 stock multiband varieties or auto-designed) of 3-5 amplifiers per hop whose per-band '
-        'amplifiers are listed C,L or L,C, launched with 3-6 dB between the L and the C partition; (b) "shuffle": the elements of such a path in random order on a spectrum whose channels '
+        'amplifiers are listed C,L or L,C, launched with 3-6 dB between the L and the C partition; (a3) NLI method ggn_approx with an explicit computed_channels list that leaves out up to 5 '
+        'first and up to 8 last channels of a mixed-rate comb (32G/50GHz block next to a 64G/75GHz block, power offset per '
+        'block); Raman fibres pumped above the band and/or from BELOW the channels (190-190.9 THz pumps under a C-band '
+        'comb, co- and counter-propagating); (b) "shuffle": the elements of such a path in random order on a spectrum whose channels '
         'already carry random ASE and NLI shares; (c) malformed: amplifier / multiband amplifier called with no channel '
         'in its band (ValueError). Non-trivial: >= 1 fibre, >= 1 amplifier and >= 1 passive element (ROADM/fused) were '
         'crossed; distinct = canonical JSON of the case')
@@ -289,6 +292,12 @@ def run_path(case, drv):
         for j, nm in enumerate(('p', 's', 'a', 'n')):
             res.cmp_floats(f'propagate.{nm}', last[nm], [b2f(r['end'][j]) for r in ans], abs_=1e-300 if nm == 'p' else 1e-15)
         res.stats['model_trace_states'] += sum(len(r['trace']) for r in ans)
+    if sim and sim['nli_params'].get('method') == 'ggn_approx':
+        comp = sim['nli_params']['computed_channels']
+        res.stats['ggn_approx_cases'] += 1
+        res.stats['ggn_approx_channels_below_computed_range'] += comp[0] - 1
+        res.stats['ggn_approx_channels_above_computed_range'] += len(f0) - comp[-1]
+        res.stats['ggn_approx_fibres'] += kinds.count('Fiber')
     passive = sum(kinds.count(k) for k in ('Roadm', 'Fused'))
     res.nontrivial = ('Fiber' in kinds or 'RamanFiber' in kinds) and ('Edfa' in kinds or 'Multiband_amplifier' in kinds) \
         and passive > 0
@@ -300,6 +309,10 @@ def run_path(case, drv):
     for call in rec.calls:
         if call.kind == 'Edfa':
             res.stats['edfa_' + str(call.el.params.type_def)] += 1
+        if call.kind == 'RamanFiber' and call.before is not None and len(call.before['freq']):
+            pf = [float(pp.frequency) for pp in call.el.raman_pumps]
+            res.stats['raman_fibre_pump_below_a_channel'] += int(min(pf) < float(np.max(call.before['freq'])))
+            res.stats['raman_fibre_all_pumps_above'] += int(min(pf) > float(np.max(call.before['freq'])))
         if call.kind == 'Fiber' and np.any(np.asarray(call.el.params.dispersion) < 0):
             res.stats['fibre_negative_dispersion'] += 1
         if call.kind == 'Multiband_amplifier':
@@ -313,6 +326,7 @@ def run_path(case, drv):
             i = int(np.nonzero(arg < 0)[0][0])
             res.fail(f'negative-noise: {kind} inside {uid!r} was given a negative power for channel {i} ({arg[i]!r} W)')
             break
+    S.classify_raman_pump_order(res, rec)
     # every attenuation/gain call (connector, padding, VOA, fibre loss, gain) leaves the shares bit-identical
     for kind, (p0, s0, a0, n0), arg, (p1, s1, a1, n1), uid in rec.op_events:
         if kind in ('attLin', 'attDb', 'gainLin', 'gainDb'):
